@@ -110,6 +110,9 @@ pub struct StructDef {
     pub rename_all: Option<String>,
     /// false: a plain (non-serde) struct - must be invisible to the tool
     pub serde: bool,
+    /// spell the derive `serde::Serialize, serde::Deserialize`
+    #[serde(default)]
+    pub qualified_derive: bool,
 }
 
 #[derive(Clone, Debug, PartialEq, Serialize, Deserialize)]
@@ -135,6 +138,9 @@ pub struct Param {
 pub struct Chan {
     pub name: String,
     pub msg: Ty,
+    /// `#[serde(rename = "...")]` on the channel parameter
+    #[serde(default)]
+    pub rename: Option<String>,
 }
 
 #[derive(Clone, Debug, PartialEq, Serialize, Deserialize)]
@@ -146,6 +152,8 @@ pub enum Payload {
     Int,
     Str,
     Bool,
+    /// a tuple literal `(1, "two")`
+    Tuple,
     /// `let <var> = <init>;` in the function body, then the variable is emitted
     Local { var: String, init: LocalInit },
 }
@@ -226,7 +234,9 @@ pub fn render_item(it: &Item) -> String {
         Item::Raw(s) => s.clone(),
         Item::Struct(s) => {
             let mut o = String::new();
-            if s.serde {
+            if s.serde && s.qualified_derive {
+                o.push_str("#[derive(Debug, Clone, serde::Serialize, serde::Deserialize)]\n");
+            } else if s.serde {
                 o.push_str("#[derive(Debug, Clone, Serialize, Deserialize)]\n");
             } else {
                 o.push_str("#[derive(Debug, Clone)]\n");
@@ -288,7 +298,10 @@ pub fn render_item(it: &Item) -> String {
                 args.push(format!("{}: {}", p.name, p.ty.render()));
             }
             for ch in &c.chans {
-                args.push(format!("{}: tauri::ipc::Channel<{}>", ch.name, ch.msg.render()));
+                match &ch.rename {
+                    Some(rn) => args.push(format!("#[serde(rename = \"{}\")] {}: tauri::ipc::Channel<{}>", rn, ch.name, ch.msg.render())),
+                    None => args.push(format!("{}: tauri::ipc::Channel<{}>", ch.name, ch.msg.render())),
+                }
             }
             o.push_str(&format!(
                 "pub {}fn {}({})",
@@ -315,6 +328,7 @@ pub fn render_item(it: &Item) -> String {
                     Payload::Var(v) => format!("{}.clone()", v),
                     Payload::Lit(t) => format!("{} {{ }}", t),
                     Payload::Int => "42".into(),
+                    Payload::Tuple => "(1, \"two\")".into(),
                     Payload::Str => "\"text\"".into(),
                     Payload::Bool => "true".into(),
                 };
@@ -519,6 +533,9 @@ pub struct GenParams {
     pub channels: bool,
     /// only tuple/map contexts the tool translates without garbling
     pub tame_contexts: bool,
+    /// every event carries a tuple-literal payload
+    #[serde(default)]
+    pub tuple_events: bool,
 }
 
 impl GenParams {
@@ -538,6 +555,7 @@ impl GenParams {
                 serde_attrs: true,
                 channels: true,
                 tame_contexts: true,
+                tuple_events: false,
             };
         }
         GenParams {
@@ -552,6 +570,7 @@ impl GenParams {
             serde_attrs: r.chance(1, 2),
             channels: r.chance(1, 2),
             tame_contexts: r.chance(2, 3),
+            tuple_events: r.chance(1, 12),
         }
     }
 }
@@ -615,6 +634,27 @@ impl Namer {
                         } else {
                             format!("{}{}{}", r.pick(&existing), r.pick(&["Ext", "Id", "List", "s", "2"]), n)
                         }
+                    }
+                    4 => {
+                        // differs from an existing type name only in the case of one letter
+                        let existing: Vec<String> = self
+                            .used
+                            .iter()
+                            .filter(|u| u.len() >= 3 && u.chars().next().map(|c| c.is_uppercase()).unwrap_or(false) && u.chars().all(|c| c.is_ascii_alphanumeric()))
+                            .cloned()
+                            .collect();
+                        let mut out = format!("{}{}", pascal(w), n);
+                        if !existing.is_empty() {
+                            let e = r.pick(&existing).clone();
+                            let idx: Vec<usize> = e.char_indices().skip(1).filter(|(_, c)| c.is_ascii_alphabetic()).map(|(i, _)| i).collect();
+                            if !idx.is_empty() {
+                                let k = *r.pick(&idx);
+                                let mut b: Vec<char> = e.chars().collect();
+                                b[k] = if b[k].is_uppercase() { b[k].to_ascii_lowercase() } else { b[k].to_ascii_uppercase() };
+                                out = b.into_iter().collect();
+                            }
+                        }
+                        out
                     }
                     _ => format!("{}{}", pascal(w), n),
                 },
@@ -806,6 +846,7 @@ pub fn gen_model(r: &mut Rng, p: &GenParams) -> Model {
                     None
                 },
                 serde: true,
+                qualified_derive: r.chance(1, 8),
             }));
         }
         type_names.push(name);
@@ -834,6 +875,7 @@ pub fn gen_model(r: &mut Rng, p: &GenParams) -> Model {
             vec![Chan {
                 name: nm.fresh(r, "field"),
                 msg: gen_ty(r, &type_names, 0, p.named_pct, true),
+                rename: None,
             }]
         } else {
             vec![]
@@ -854,6 +896,7 @@ pub fn gen_model(r: &mut Rng, p: &GenParams) -> Model {
                 3 => Payload::Str,
                 _ => Payload::Bool,
             };
+            let payload = if p.tuple_events { Payload::Tuple } else { payload };
             emits.push(Emit { event: nm.fresh(r, "event"), payload, emit_to: r.chance(1, 5) });
             if emits.len() >= 2 {
                 break;
@@ -911,6 +954,7 @@ pub fn gen_decoy(r: &mut Rng, nm: &mut Namer) -> Item {
             }],
             rename_all: None,
             serde: false,
+            qualified_derive: false,
         }),
         3 => Item::Raw(format!(
             "pub const LIMIT_{}: usize = {};\n\nstatic NAME_{}: &str = \"{}\";\n",
